@@ -89,6 +89,59 @@ def s1_jobs(tier, harness, quick_n5_max_edges=None):
     return jobs
 
 
+def front_end_jobs(tier, harness):
+    """Graphs derived from source (S2 programs through AST2SCFG) and from bytecode
+    (the same programs compiled): larger than the S1 bound, shapes of real code."""
+    from vf import s2
+    from vf.oracles.hier import orig_map, is_closed
+
+    def mk(name, factory, depth, kind, bounds, budget=900.0, required=True):
+        def h(E, ctx, aux):
+            ch = s2.Chooser(E, getattr(ctx, "cube", ()))
+            src = factory(ch).program()
+            desc = {"kind": kind, "src": src}
+            ctx.current = desc
+            if kind == "bytecode":
+                ns = {}
+                exec(compile(src, "<front>", "exec"), ns)
+                if ns["f"].__code__.co_exceptiontable:
+                    ctx.feature("skipped:exception-table")
+                    return
+            try:
+                orig = orig_map(desc)
+            except NotImplementedError:
+                ctx.feature("front-end-refused")
+                return
+            except Exception:
+                ctx.feature("front-end-raised")  # C07 / C09 territory
+                return
+            if not is_closed(orig):
+                ctx.feature("front-end-graph-not-closed")  # outside the domain (DESIGN section 9)
+                return
+            ctx.feature(f"{kind}-graph-blocks:{min(len(orig) // 5 * 5, 30)}+")
+            harness(E, ctx, aux, desc)
+
+        return Job(name=name, space=lambda: (None, [], None), harness=h, bounds=bounds, budget_s=budget, required=required,
+                   cubes_fn=lambda: s2.enum_prefixes(lambda ch: factory(ch).program(), depth), path_timeout_s=20.0)
+
+    js = []
+    if tier == "quick":
+        js.append(mk("source-derived-S2-ctl-c2-d2-t1", lambda ch: s2.CtlGen(ch, 2, 2, 1), 3, "source",
+                     {"space": "graphs of AST2SCFG over S2-ctl", "compounds<=": 2, "depth<=": 2, "terminators<=": 1}))
+        js.append(mk("bytecode-derived-S2-ctl-c1", lambda ch: s2.CtlGen(ch, 1, 2, 2), 2, "bytecode",
+                     {"space": "graphs of ByteFlow over compiled S2-ctl", "compounds<=": 1}))
+    else:
+        js.append(mk("source-derived-S2-ctl-c2-d3-t2", lambda ch: s2.CtlGen(ch, 2, 3, 2), 3, "source",
+                     {"space": "graphs of AST2SCFG over S2-ctl", "compounds<=": 2, "depth<=": 3, "terminators<=": 2}, budget=1800))
+        js.append(mk("source-derived-S2-ctl-c3-d3-t2", lambda ch: s2.CtlGen(ch, 3, 3, 2), 4, "source",
+                     {"space": "graphs of AST2SCFG over S2-ctl", "compounds<=": 3, "depth<=": 3, "terminators<=": 2}, budget=1200, required=False))
+        js.append(mk("source-derived-S2-expr-d2", lambda ch: s2.ExprGen(ch, 2), 3, "source",
+                     {"space": "graphs of AST2SCFG over S2-expr", "depth<=": 2}, budget=1200))
+        js.append(mk("bytecode-derived-S2-ctl-c2-d2-t1", lambda ch: s2.CtlGen(ch, 2, 2, 1), 3, "bytecode",
+                     {"space": "graphs of ByteFlow over compiled S2-ctl", "compounds<=": 2}, budget=1800))
+    return js
+
+
 def graph_features(desc):
     """Shape features of the input (vacuity guard / feature counters)."""
     from vf.oracles.hier import input_sccs, orig_map
